@@ -87,7 +87,7 @@ PROPS = {
     ),
     "C06": dict(
         engines=[("alloc6", 6000, 120000), ("alloc4", 6000, 120000)],
-        theorems=["C06_alloc6", "C06_alloc4", "C06_error_unchanged6", "C06_error_unchanged4"],
+        theorems=["C06_alloc6", "C06_alloc4", "C06_error_unchanged6", "C06_error_unchanged4", "C06_D2_prefix_refuted"],
         modules=["CoreDhcp.Props.C06"],
         trusted_base=[TB_BITSET, TB_STD],
         assumptions=["Free is given a well-formed prefix no shorter than the allocation size (the property's quantifier); shorter prefixes are executed and logged as drift only"],
